@@ -246,7 +246,7 @@ def final_values(sp, ops):
 def check(case, ctx):
     sp = copy.deepcopy(case["spec"])
     m = sp["method"]
-    if any(c04.degenerate(c) for c in sp["constraints"]):
+    if any(c04.degenerate(c, {d["name"] for d in sp["params"]}) for c in sp["constraints"]):
         ctx.count("shifted_operand_cancels_symbolically")
         return []
     N, M = m["N"], m["M"]
